@@ -158,6 +158,13 @@ class StateGuard:
         for m in shims.dali_modules():
             out.append(m)
             for v in list(vars(m).values()):
+                # long-lived instances bound to module globals (the memory bank objects, shared exception
+                # objects): their attributes are process-wide state too
+                if not isinstance(v, type) and hasattr(v, "__dict__") and not callable(v) \
+                        and (type(v).__module__ or "").startswith("dali") and id(v) not in seen \
+                        and not isinstance(v, BaseException):
+                    seen.add(id(v))
+                    out.append(v)
                 if isinstance(v, type) and (v.__module__ or "").startswith("dali") and id(v) not in seen:
                     stack = [v]
                     while stack:
